@@ -22,7 +22,8 @@ Definition dPolicy : dec policy :=
 
 Definition dGjob : dec gjob :=
   let* u := dZ in let* p := dPhase in let* ttl := dOpt dZ in let* d := dBool in let* f := dOpt dZ in
-  ret (mkGjob u p ttl d f).
+  let* c := dOpt dZ in
+  ret (mkGjob u p ttl d f c).
 
 Definition dRef : dec jref := let* n := dZ in let* u := dZ in ret (mkRef n u).
 Definition dJob : dec job :=
@@ -177,8 +178,11 @@ Definition entry (sel : Z) (toks : list Z) : list Z :=
   | 101 => match run_dec (let* j := dGjob in let* s := dZ in let* g := dOpt dZ in ret (j, s, g)) toks with
            | Some (j, s, g) => eBool (law_time_left j s g) | None => bad_input end
   | 103 => match run_dec (let* lj := dOpt dGjob in let* fr := dOpt dGjob in let* lo := dZ in let* hi := dZ in
-                          let* del := dOpt dZ in let* rq := dList dZ in ret (lj, fr, lo, hi, del, rq)) toks with
-           | Some (lj, fr, lo, hi, del, rq) => eBool (law_gc lj fr lo hi del rq) | None => bad_input end
+                          let* del := dOpt dZ in let* rq := dList dZ in let* err := dBool in
+                          ret (lj, fr, lo, hi, del, rq, err)) toks with
+           | Some (lj, fr, lo, hi, del, rq, err) =>
+             eBool (law_gc lj fr lo hi del rq && law_gc_no_finish lj fr lo del rq err)
+           | None => bad_input end
   | 110 => match run_dec (let* tbl := dTable in let* cr := dZ in let* l := dOpt dZ in let* d := dOpt dZ in
                           let* now := dZ in let* ch := dOpt dZ in ret (tbl, cr, l, d, now, ch)) toks with
            | Some (tbl, cr, l, d, now, ch) => eBool (law_choice tbl cr l d now ch) | None => bad_input end
